@@ -443,6 +443,11 @@ package graphql
 //@   assigns nothing
 //@   ensures result != nil && fresh(result) && result.len == 0
 
+//@ extern func sync/atomic::Uint64.Add
+//@   assigns class:atomic.
+//@ extern func sync/atomic::Uint64.Load
+//@   pure
+
 //@ func PlanCache.lookup
 //@   props C06 C07
 //@   nosafety
